@@ -38,6 +38,8 @@ func main() {
 		cmdCrash(os.Args[2:])
 	case "api":
 		cmdAPI(os.Args[2:])
+	case "consts":
+		cmdConsts(os.Args[2:])
 	default:
 		die(70, "unknown command %s", os.Args[1])
 	}
